@@ -2018,3 +2018,21 @@ T('C14', 'twin-export-subkeys-by-keyid', PGP, "        for sk in self._children.
   "        for keyid in self._children:\n            _bytes += self._children[keyid].__bytearray__()\n\n        return _bytes")
 M('C14', 'export-first-subkey-only', PGP, "        for sk in self._children.values():\n            _bytes += sk.__bytearray__()\n\n        return _bytes",
   "        for sk in list(self._children.values())[:1]:\n            _bytes += sk.__bytearray__()\n\n        return _bytes", 'C14.1')
+
+# ---- held-out wave (C14-ref6, C20-ref5, C20-ref6)
+T('C14', 'twin-grouper-class-attribute', PGP, "        def pktgrouper():\n            class PktGrouper(object):\n                def __init__(self):\n                    self.last = None\n\n                def __call__(self, pkt):\n" + GROUPER + "            return PktGrouper()\n", "",
+  more=[(PGP, "itertools.groupby(getpkt, key=pktgrouper())", "itertools.groupby(getpkt, key=self._PktGrouper())"),
+        (PGP, "    def parse(self, data):\n        unarmored = self.ascii_unarmor(data)\n        data = unarmored['body']\n\n        if unarmored['magic'] is not None and 'KEY' not in unarmored['magic']:",
+         "    class _PktGrouper(object):\n        def __init__(self):\n            self.last = None\n\n        def __call__(self, pkt):\n            if pkt.header.tag != PacketTag.Signature:\n                self.last = '{:02X}_{:s}'.format(id(pkt), pkt.__class__.__name__)\n            return self.last\n\n"
+         "    def parse(self, data):\n        unarmored = self.ascii_unarmor(data)\n        data = unarmored['body']\n\n        if unarmored['magic'] is not None and 'KEY' not in unarmored['magic']:")])
+M('C14', 'grouper-class-attribute-splits-on-all', PGP, "        def pktgrouper():\n            class PktGrouper(object):\n                def __init__(self):\n                    self.last = None\n\n                def __call__(self, pkt):\n" + GROUPER + "            return PktGrouper()\n", "", 'C14.3',
+  more=[(PGP, "itertools.groupby(getpkt, key=pktgrouper())", "itertools.groupby(getpkt, key=self._PktGrouper())"),
+        (PGP, "    def parse(self, data):\n        unarmored = self.ascii_unarmor(data)\n        data = unarmored['body']\n\n        if unarmored['magic'] is not None and 'KEY' not in unarmored['magic']:",
+         "    class _PktGrouper(object):\n        def __init__(self):\n            self.last = None\n\n        def __call__(self, pkt):\n            if pkt.header.tag != PacketTag.Trust:\n                self.last = '{:02X}_{:s}'.format(id(pkt), pkt.__class__.__name__)\n            return self.last\n\n"
+         "    def parse(self, data):\n        unarmored = self.ascii_unarmor(data)\n        data = unarmored['body']\n\n        if unarmored['magic'] is not None and 'KEY' not in unarmored['magic']:")])
+T('C20', 'twin-all-yield-from', PGP, "            for sig in self._signatures:\n                yield sig\n            for pkt in self._sessionkeys:\n                yield pkt\n            yield self.message\n",
+  "            yield from self._signatures\n            yield from self._sessionkeys\n            yield self.message\n")
+M('C20', 'yield-from-sessionkeys-after-container', PGP, "            for sig in self._signatures:\n                yield sig\n            for pkt in self._sessionkeys:\n                yield pkt\n            yield self.message\n",
+  "            yield from self._signatures\n            yield self.message\n            yield from self._sessionkeys\n", 'C20.1')
+T('C20', 'twin-ops-flag-operands-swapped', PK, "        self.nested = (packet[0] == 1)\n", "        self.nested = (1 == packet[0])\n")
+M('C20', 'ops-reader-flag-two', PK, "        self.nested = (packet[0] == 1)\n", "        self.nested = (2 == packet[0])\n", 'C20.6')
